@@ -92,9 +92,9 @@ def gen(shard, tier):
 
 
 # ---- rendering (own, no library) -------------------------------------------------------------------------------
-def render(seq, res=None, nterm=None, cterm=None, iv=None):
+def render(seq, res=None, nterm=None, cterm=None, iv=None, labile=None):
     res = res or {}
-    s = ''
+    s = ''.join('{%s}' % m for m in (labile or ()))
     if nterm:
         s += ''.join(f'[{m}]' for m in nterm) + '-'
     for i, a in enumerate(seq):
@@ -185,10 +185,12 @@ def check(case, ctx):
                     ctx.fail('coverage', exp, got, call=['coverage', t, ql, acc, False])
             exp = cover(T, Qs, False, False)
             expp = (sum(exp) / len(exp)) if exp else 0
-            st, got = lib.call(p.percent_coverage, t, list(ql))
-            ctx.evals += 1
-            if st != 'ok' or not lib.close(got, expp, 1e-12) or not (0 <= got <= 1):
-                ctx.fail('percent_coverage', expp, got, call=['percent_coverage', t, ql])
+            for ig in (None, False, True):
+                st, got = lib.call(p.percent_coverage, t, list(ql)) if ig is None else \
+                    lib.call(p.percent_coverage, t, list(ql), ignore_mods=ig)
+                ctx.evals += 1
+                if st != 'ok' or not lib.close(got, expp, 1e-12) or not (0 <= got <= 1):
+                    ctx.fail('percent_coverage', expp, got, call=['percent_coverage', t, ql, ig])
         ctx.outcome = [t, nocc]
     elif kind == 'mod':
         t = case['t']
@@ -218,6 +220,13 @@ def check(case, ctx):
                                 ctx.evals += 1
                                 if st != 'ok' or list(got) != exp:
                                     ctx.fail('coverage-mod', exp, got, call=['coverage', ts, [qs], acc, ig])
+                        for ig in (False, True):
+                            expc = cover(T, [Q], False, ig)
+                            st, got = lib.call(p.percent_coverage, ts, [qs], ignore_mods=ig)
+                            ctx.evals += 1
+                            if st != 'ok' or not lib.close(got, sum(expc) / len(expc), 1e-12):
+                                ctx.fail('percent_coverage-mod', sum(expc) / len(expc), got,
+                                         call=['percent_coverage', ts, [qs], ig])
                         # two listed peptides with the same residues and different modifications, given as strings,
                         # as annotation objects, and mixed (the documentation recommends passing parsed objects)
                         if qtag in (1, 12):
@@ -313,20 +322,27 @@ def check(case, ctx):
         tres = {i: [m] for i, m in enumerate(tm) if m}
         ntrue = 0
 
-        def units(seq, mods, nt, ct):
-            # a peptide as a multiset of (residue, own tag, N-terminal tag if first, C-terminal tag if last)
-            return sorted((seq[i], mods[i], nt if i == 0 else 0, ct if i == len(seq) - 1 else 0) for i in range(len(seq)))
-        for tnt, tct in (((0, 0), (3, 4), (3, 0), (0, 4)) if n <= 3 else ((0, 0),)):
-            ts = render(t, tres, [tnt] if tnt else None, [tct] if tct else None)
-            tbag = units(t, tm, tnt, tct)
+        def units(seq, mods, nt, ct, lab):
+            # a peptide as a multiset of (residue, own tag, N-terminal tag / labile tag if first, C-terminal tag if last)
+            return sorted((seq[i], mods[i], nt if i == 0 else 0, ct if i == len(seq) - 1 else 0, lab if i == 0 else 0)
+                          for i in range(len(seq)))
+        tvars = ((0, 0, 0), (3, 4, 0), (3, 0, 0), (0, 4, 0), (0, 0, 5), (3, 0, 5)) if n <= 3 else ((0, 0, 0),)
+        for tnt, tct, tlab in tvars:
+            ts = render(t, tres, [tnt] if tnt else None, [tct] if tct else None, labile=[tlab] if tlab else None)
+            tbag = units(t, tm, tnt, tct, tlab)
             for m in range(1, min(3, n + 1) + 1):
                 for q in _strings(m, m):
                     for qm in itertools.product((0, 1, 2), repeat=m):
-                        for qnt, qct in (((0, 0), (3, 0), (0, 4), (3, 4)) if m == 1 else ((0, 0), (3, 0), (0, 4)) if m == 2 and (tnt or tct)
-                                         else ((0, 0),)):
+                        if m == 1:
+                            qvars = ((0, 0, 0), (3, 0, 0), (0, 4, 0), (3, 4, 0), (0, 0, 5), (3, 0, 5))
+                        elif m == 2 and (tnt or tct or tlab):
+                            qvars = ((0, 0, 0), (3, 0, 0), (0, 4, 0), (0, 0, 5))
+                        else:
+                            qvars = ((0, 0, 0),)
+                        for qnt, qct, qlab in qvars:
                             qs = render(q, {i: [x] for i, x in enumerate(qm) if x}, [qnt] if qnt else None,
-                                        [qct] if qct else None)
-                            qbag = units(q, qm, qnt, qct)
+                                        [qct] if qct else None, labile=[qlab] if qlab else None)
+                            qbag = units(q, qm, qnt, qct, qlab)
                             rest = list(tbag)
                             exp = True
                             for x in qbag:
